@@ -139,6 +139,113 @@ ARITH_METHODS = {"overflowing_add", "overflowing_sub", "overflowing_mul", "overf
                  "power_of_two", "widening_mul", "gcd", "to_u128", "last_digit_index"}
 
 
+import struct
+from fractions import Fraction
+
+
+class FL:
+    """an IEEE-754 binary32 / binary64 value, kept as its bit pattern"""
+    __slots__ = ("ty", "bits")
+
+    def __init__(self, ty, bits):
+        self.ty, self.bits = ty, bits
+
+    @staticmethod
+    def of(ty, x):
+        if ty == "f32":
+            return FL(ty, struct.unpack("<I", struct.pack("<f", x))[0])
+        return FL(ty, struct.unpack("<Q", struct.pack("<d", x))[0])
+
+    @property
+    def width(self):
+        return 32 if self.ty == "f32" else 64
+
+    @property
+    def dig(self):
+        return 24 if self.ty == "f32" else 53
+
+    @property
+    def sign(self):
+        return bool(self.bits >> (self.width - 1))
+
+    @property
+    def rawexp(self):
+        return (self.bits >> (self.dig - 1)) & ((1 << (self.width - self.dig)) - 1)
+
+    @property
+    def rawmant(self):
+        return self.bits & ((1 << (self.dig - 1)) - 1)
+
+    def is_nan(self):
+        return self.rawexp == (1 << (self.width - self.dig)) - 1 and self.rawmant != 0
+
+    def is_inf(self):
+        return self.rawexp == (1 << (self.width - self.dig)) - 1 and self.rawmant == 0
+
+    def magnitude(self):
+        """exact |value| as a Fraction (finite values only)"""
+        bias = (1 << (self.width - self.dig - 1)) - 1
+        if self.rawexp == 0:
+            return Fraction(self.rawmant, 1) * Fraction(2) ** (1 - bias - (self.dig - 1))
+        return Fraction(self.rawmant | (1 << (self.dig - 1)), 1) * Fraction(2) ** (self.rawexp - bias - (self.dig - 1))
+
+    def __eq__(self, o):
+        return isinstance(o, FL) and o.ty == self.ty and o.bits == self.bits
+
+    def __hash__(self):
+        return hash((self.ty, self.bits))
+
+    def __repr__(self):
+        if self.is_nan():
+            return "NaN" + self.ty
+        if self.is_inf():
+            return ("-" if self.sign else "") + "inf" + self.ty
+        return "%s%s%s" % ("-" if self.sign else "", float(self.magnitude()), self.ty)
+
+
+FLOAT_CONSTS = {
+    ("f32", "MANTISSA_DIGITS"): PI("u32", 24), ("f64", "MANTISSA_DIGITS"): PI("u32", 53),
+    ("f32", "MAX_EXP"): PI("i32", 128), ("f64", "MAX_EXP"): PI("i32", 1024),
+    ("f32", "BITS"): PI("u32", 32), ("f64", "BITS"): PI("u32", 64),
+}
+PROJ_TYPES = {"<f32 as cast::float::ConvertFloatParts>::Mantissa": "u32", "<f64 as cast::float::ConvertFloatParts>::Mantissa": "u64",
+              "<f32 as cast::float::ConvertFloatParts>::SignedExp": "i32", "<f64 as cast::float::ConvertFloatParts>::SignedExp": "i32",
+              "<f32 as cast::float::ConvertFloatParts>::UnsignedExp": "u32", "<f64 as cast::float::ConvertFloatParts>::UnsignedExp": "u32"}
+
+
+def _trait_const(path, selfty, W):
+    """associated constant of a trait, at a concrete Self type (after generic substitution)"""
+    name = path.rsplit("::", 1)[1]
+    selfty = PROJ_TYPES.get(selfty, selfty)
+    m = re.match(r"^(BUintD32|BUintD16|BUintD8|BUint|BIntD32|BIntD16|BIntD8|BInt)<N>$", selfty)
+    if m:
+        if name in ("ZERO", "ONE", "MAX", "MIN", "BITS"):
+            return W.const(m.group(1), name)
+        return OPAQUE
+    if selfty in PRIM_BITS:
+        if name == "ZERO":
+            return PI(selfty, 0)
+        if name == "ONE":
+            return PI(selfty, 1)
+        if name == "BITS":
+            return PI("u32", PRIM_BITS[selfty])
+        if name == "MAX":
+            return _wrap_prim(selfty, (1 << (PRIM_BITS[selfty] - (1 if selfty.startswith("i") else 0))) - 1)
+        if name == "MIN":
+            return _wrap_prim(selfty, -(1 << (PRIM_BITS[selfty] - 1)) if selfty.startswith("i") else 0)
+        return OPAQUE
+    if selfty in ("f32", "f64"):
+        if (selfty, name) in FLOAT_CONSTS:
+            return FLOAT_CONSTS[(selfty, name)]
+        if name == "INFINITY":
+            return FL.of(selfty, float("inf"))
+        if name == "ZERO":
+            return FL.of(selfty, 0.0)
+        if name == "NEG_ZERO":
+            return FL.of(selfty, -0.0)
+    return OPAQUE
+
+
 def ev(t, env, W):
     """value of a term under a parameter assignment, or OPAQUE"""
     k = t[0]
@@ -156,7 +263,8 @@ def ev(t, env, W):
         m = re.match(r"^(BUintD32|BUintD16|BUintD8|BUint|BIntD32|BIntD16|BIntD8|BInt)<N>::([A-Z_0-9]+)$", t[1])
         if m:
             return W.const(m.group(1), m.group(2))
-        m = re.match(r"^<(u8|u16|u32|u64|u128|usize|i8|i16|i32|i64|i128|isize)>::(MAX|MIN|BITS)$", t[1])
+        if len(t[2]) == 1 and not t[1].startswith("B") and "::" in t[1] and not t[1].startswith("<"):
+            return _trait_const(t[1], t[2][0], W)
         return OPAQUE
     if k == "CP":
         if t[1] == "N":
@@ -264,6 +372,8 @@ def ev(t, env, W):
             return not b
         if t[1] == "Neg" and isinstance(b, PI):
             return _wrap_prim(b.ty, -b.v)
+        if t[1] == "Neg" and isinstance(b, FL):
+            return FL(b.ty, b.bits ^ (1 << (b.width - 1)))
         if t[1] == "Not" and isinstance(b, PI):
             return _wrap_prim(b.ty, ~b.v)
         return OPAQUE
@@ -332,6 +442,9 @@ def _atom(t, env, W):
     if not m:
         return OPAQUE
     name = m.group(1)
+    r = _prim_atom(name, label, t, env, W)
+    if r is not None:
+        return r
     if name == "unchecked_shr_pad_internal" and m.group(2):
         return _arith(name, label, [ev(a, env, W) for a in t[2]], W, m.group(2))
     if name in ("checked_sub", "checked_add") and re.match(r"^(u8|u16|u32|u64|usize)::", label):
@@ -396,6 +509,90 @@ def _atom(t, env, W):
     if len(args) == 2 and isinstance(args[1], BN) and args[1].adt == args[0].adt:
         return _cmp_name(name, x, args[1].v)
     return OPAQUE
+
+
+_PRIM_TRAIT = re.compile(r"^<&?(u8|u16|u32|u64|u128|usize|i8|i16|i32|i64|i128|isize) as core::(cmp|ops|convert)::(\w+)(<.*>)?>::(\w+)$")
+_PRIM_INH = re.compile(r"^(u8|u16|u32|u64|u128|usize|i8|i16|i32|i64|i128|isize|f32|f64)::(\w+)$")
+_BINOPS = {"add": "Add", "sub": "Sub", "mul": "Mul", "bitand": "BitAnd", "bitor": "BitOr", "bitxor": "BitXor", "shl": "Shl",
+           "shr": "Shr", "eq": "Eq", "ne": "Ne", "lt": "Lt", "le": "Le", "gt": "Gt", "ge": "Ge", "div": "Div", "rem": "Rem"}
+
+
+def _prim_atom(name, label, t, env, W):
+    """methods of primitive integers / floats and the crate's float-part helpers (None: not one of them)"""
+    m = _PRIM_TRAIT.match(label)
+    if m:
+        args = [ev(a, env, W) for a in t[2]]
+        if m.group(3) == "TryFrom" and name == "try_from" and len(args) == 1 and isinstance(args[0], PI):
+            ty = m.group(1)
+            b = PRIM_BITS[ty]
+            lo, hi = (-(1 << (b - 1)), (1 << (b - 1)) - 1) if ty.startswith("i") else (0, (1 << b) - 1)
+            return ("Ok", PI(ty, args[0].v)) if lo <= args[0].v <= hi else ("Err", OPAQUE)
+        if name == "neg" and len(args) == 1 and isinstance(args[0], PI):
+            return _wrap_prim(args[0].ty, -args[0].v)
+        if name == "not" and len(args) == 1 and isinstance(args[0], PI):
+            return _wrap_prim(args[0].ty, ~args[0].v)
+        if name in _BINOPS and len(args) == 2 and isinstance(args[0], PI) and isinstance(args[1], PI):
+            return _binop(_BINOPS[name], args[0], PI(args[0].ty, args[1].v) if name not in ("shl", "shr") else args[1])
+        return OPAQUE
+    m = _PRIM_INH.match(label)
+    if m:
+        args = [ev(a, env, W) for a in t[2]]
+        ty = m.group(1)
+        if ty in ("f32", "f64"):
+            if name == "from_bits" and len(args) == 1 and isinstance(args[0], PI):
+                return FL(ty, args[0].v & ((1 << (32 if ty == "f32" else 64)) - 1))
+            if len(args) == 1 and isinstance(args[0], FL):
+                f = args[0]
+                if name == "is_nan":
+                    return f.is_nan()
+                if name == "is_infinite":
+                    return f.is_inf()
+                if name == "is_sign_negative":
+                    return f.sign
+                if name == "to_bits":
+                    return PI("u32" if ty == "f32" else "u64", f.bits)
+            return OPAQUE
+        if args and isinstance(args[0], PI):
+            x = args[0].v
+            b = PRIM_BITS[ty]
+            ux = x & ((1 << b) - 1)
+            if name == "leading_zeros":
+                return PI("u32", b - ux.bit_length())
+            if name == "trailing_zeros":
+                return PI("u32", b if ux == 0 else (ux & -ux).bit_length() - 1)
+            if name == "count_ones":
+                return PI("u32", bin(ux).count("1"))
+            if name == "wrapping_shr" and len(args) == 2 and isinstance(args[1], PI):
+                return _wrap_prim(ty, x >> (args[1].v % b))
+            if name == "wrapping_shl" and len(args) == 2 and isinstance(args[1], PI):
+                return _wrap_prim(ty, x << (args[1].v % b))
+        return None
+    if label.endswith("ConvertFloatParts>::into_normalised_signed_parts") and len(t[2]) == 1:
+        f = ev(t[2][0], env, W)
+        if not isinstance(f, FL):
+            return OPAQUE
+        mty = "u32" if f.ty == "f32" else "u64"
+        bias = (1 << (f.width - f.dig - 1)) - 1
+        if f.rawexp == 0:
+            exp, mant = 1 - bias, f.rawmant
+            if mant:
+                return OPAQUE          # subnormals: normalisation details are not modelled
+        else:
+            exp, mant = f.rawexp - bias, f.rawmant | (1 << (f.dig - 1))
+        return ("tuple", (f.sign, PI("i32", exp), PI(mty, mant)))
+    m2 = re.match(r"^<(BUintD32|BUintD16|BUintD8|BUint|BIntD32|BIntD16|BIntD8|BInt)<N> as cast::CastFrom<(u8|u16|u32|u64|u128|usize|i8|i16|i32|i64|i128|isize)>>::cast_from$", label)
+    if m2 and len(t[2]) == 1:
+        a = ev(t[2][0], env, W)
+        if isinstance(a, PI):
+            return W.wrap(m2.group(1), a.v)
+        return OPAQUE
+    m2 = re.match(r"^<(u8|u16|u32|u64|u128|usize|i8|i16|i32|i64|i128|isize) as cast::CastFrom<(BUintD32|BUintD16|BUintD8|BUint|BIntD32|BIntD16|BIntD8|BInt)<N>>>::cast_from$", label)
+    if m2 and len(t[2]) == 1:
+        a = ev(t[2][0], env, W)
+        if isinstance(a, BN):
+            return _wrap_prim(m2.group(1), a.v)
+        return OPAQUE
+    return None
 
 
 def _arith(name, label, args, W, generics=None):
@@ -509,10 +706,14 @@ _DEPTH = [0]
 
 def _descend(label, generic_suffix, t, env, W):
     """Interpret a call of a local wrapper that was too large to inline by walking its own guard tree."""
-    if _DESCEND is None or generic_suffix or _DEPTH[0] > 6:
+    if _DESCEND is None or _DEPTH[0] > 6:
         return OPAQUE
     S, F = _DESCEND
-    root = F.root_of(label)
+    if generic_suffix:
+        base = label[: -len(generic_suffix)]
+        root = F.find_instance(base, [x.strip() for x in generic_suffix[3:-1].split(", ")])
+    else:
+        root = F.root_of(label)
     if root is None or not S.is_wrapper(root, as_root=True):
         return OPAQUE
     tree = S.summary(root)
